@@ -108,3 +108,46 @@ package proto
 //@   invariant (i == 0 ==> 0 <= idx) && (i > 0 ==> c.Offsets[i - 1] <= idx) && idx <= c.Offsets[i]
 //@ contract (c ColArr) Row(i) (out) props(C06)
 //@   requires c.Data != nil && wfArr(c) && 0 <= i && i < len(c.Offsets)
+
+// ---------------------------------------------------------------------------
+// Map(K,V): cumulative offsets + keys + values (same shape as Array, two data columns)
+
+//@ valid (c *ColMap): c != nil ==> c.Keys != nil && c.Values != nil
+//@ spec func wfMap(c Val) Bool = monotone(c.Offsets) && (len(c.Offsets) > 0 ==> c.Offsets[len(c.Offsets) - 1] == c.Keys.nrows) && c.Keys.nrows == c.Values.nrows && c.Keys.nrows <= maxRowsInBLock && (len(c.Offsets) == 0 ==> c.Keys.nrows == 0)
+
+//@ contract (c ColMap) Rows() (n) props(C01,C06,C16)
+//@   ensures n == len(c.Offsets)
+//@ contract (c *ColMap) Reset() props(C16)
+//@   requires c != nil
+//@   modifies c.Offsets, c.Keys.nrows, c.Values.nrows
+//@   ensures len(c.Offsets) == 0 && c.Keys.nrows == 0 && c.Values.nrows == 0 {empty-after-reset}
+//@ contract (c *ColMap) DecodeColumn(r, rows) (err) props(C01,C06,C07,C16)
+//@   requires c != nil && r != nil && len(c.Offsets) == 0 && c.Keys.nrows == 0 && c.Values.nrows == 0 && 0 <= rows && rows <= maxRowsInBLock
+//@   modifies c.Offsets, c.Keys.nrows, c.Values.nrows, r.pos, r.failed, r.b.Buf
+//@   ensures err == nil ==> len(c.Offsets) == rows {rows}
+//@   ensures err == nil ==> wfMap(c) {offsets-consistent}
+//@   ensures err == nil ==> r.failed == old(r.failed)
+//@   ensures old(r.pos) <= r.pos && r.pos <= r.end
+//@ contract (c ColMap) RowKV(i) (out) props(C06)
+//@   requires c.Keys != nil && c.Values != nil && wfMap(c) && 0 <= i && i < len(c.Offsets)
+//@ loop 0 (v, idx)
+//@   invariant (i == 0 ==> 0 <= idx) && (i > 0 ==> c.Offsets[i - 1] <= idx) && idx <= c.Offsets[i]
+
+// ---------------------------------------------------------------------------
+// Nullable(T): null mask (UInt8) + values, row-aligned
+
+//@ valid (c *ColNullable): c != nil ==> c.Values != nil
+//@ contract (c ColNullable) Rows() (n) props(C01,C06,C16)
+//@   ensures n == len(c.Nulls)
+//@ contract (c *ColNullable) Reset() props(C16)
+//@   requires c != nil
+//@   modifies c.Nulls, c.Values.nrows
+//@   ensures len(c.Nulls) == 0 && c.Values.nrows == 0 {empty-after-reset}
+//@ contract (c *ColNullable) DecodeColumn(r, rows) (err) props(C01,C06,C07,C16)
+//@   requires c != nil && r != nil && len(c.Nulls) == 0 && c.Values.nrows == 0 && 0 <= rows && rows <= maxRowsInBLock
+//@   modifies c.Nulls, c.Values.nrows, r.pos, r.failed, r.b.Buf
+//@   ensures err == nil ==> len(c.Nulls) == rows && c.Values.nrows == rows {rows-aligned}
+//@   ensures err == nil ==> r.failed == old(r.failed)
+//@   ensures old(r.pos) <= r.pos && r.pos <= r.end
+//@ contract (c ColNullable) Row(i) (v) props(C06)
+//@   requires c.Values != nil && len(c.Nulls) == c.Values.nrows && 0 <= i && i < len(c.Nulls)
